@@ -662,6 +662,13 @@ def _second_run_same_ctrl_variables(res, trace, mn, nets, model, kw, solver, cv,
             key = (c["from_net"], "sink", c["idx_from"][0], "mdot_kg_per_s")
         if key not in model.v or any(w[:4] == key for w in model.written):
             continue   # (a value another coupling writes is not ours to edit)
+        if c is not off and prng.random() < 0.5:
+            # the input stays as it is, but the user overwrites what the coupling had written: it has to be
+            # written again in the next run
+            for w in model.written:
+                if w[4] == cps.index(c) and w[2] in nets[w[0]][w[1]].index:
+                    nets[w[0]][w[1]].at[w[2], w[3]] = float(nets[w[0]][w[1]].at[w[2], w[3]]) * 0.5 + 1e-4
+            continue
         new = model.v[key] * 1.25
         model.v[key] = new
         nets[key[0]][key[1]].at[key[2], key[3]] = new
@@ -675,7 +682,11 @@ def _second_run_same_ctrl_variables(res, trace, mn, nets, model, kw, solver, cv,
     if not all(t[1] == "ok" for t in twins.values()):
         return
     try:
-        run_control_mn(mn, ctrl_variables=cv, **kw)
+        if prng.random() < 0.5:
+            run_control_mn(mn, ctrl_variables=cv, **kw)
+        else:
+            run_control_mn(mn, **kw)      # (or a fresh set of control variables)
+            res.count("probe:second-run-fresh-ctrl-variables")
     except CONV_ERRORS as e:
         res.violate("C20", "C20/second-run-same-ctrl-variables:feasible-reported-failed", repr(e)[:160])
         return
